@@ -15,7 +15,7 @@ def check_scopefn_params(ctx, comp, rule):
     f = sc.func("ScopeFn.__init__")
     ctx.require(f is not None, "ScopeFn.__init__ not found")
     loop = next((n for n in pyq.walk_no_nested(f) if isinstance(n, ast.For) and "args." in norm(n.iter)), None)
-    ctx.require(loop is not None, "ScopeFn.__init__: parameter loop not found")
+    ctx.need(loop is not None, "ScopeFn.__init__: parameter loop not found")
     it = norm(loop.iter)
     for part in ("args.args", "args.posonlyargs", "args.kwonlyargs", "args.vararg", "args.kwarg"):
         ctx.check(part in it, rule, f"{compq.SC}|ScopeFn.__init__|defines {part}", f"function scopes no longer record `{part}` parameters as defined ({it})", compq.SC, loop.lineno,
@@ -42,16 +42,16 @@ def check(ctx, src):
     reach = Reach(ll)
     # --- pattern order
     pat = rm.toplevel_assign("lambda_list")
-    ctx.require(isinstance(pat, ast.Call) and dotted(pat.func) == "brackets" and len(pat.args) == 5, "lambda_list pattern no longer has five groups")
+    ctx.need(isinstance(pat, ast.Call) and dotted(pat.func) == "brackets" and len(pat.args) == 5, "lambda_list pattern no longer has five groups")
     texts = [norm(a) for a in pat.args]
     want = ["maybe(many(argument) + sym('/'))", "many(argument)", "maybe(kwonly_delim | varargs('unpack-iterable', NASYM))", "many(argument)", "maybe(varargs('unpack-mapping', NASYM))"]
     ctx.check(texts == want, "LL-WIRE", f"{R}|lambda_list|pattern", f"lambda_list pattern groups are {texts}", R, pat.lineno, detail="5 groups in order")
     un = pyq.contains(ll, lambda n: isinstance(n, ast.Assign) and isinstance(n.targets[0], ast.Tuple) and norm(n.value) == "params" and len(n.targets[0].elts) == 5)
-    ctx.require(un is not None, "compile_lambda_list: 5-tuple unpack of params not found")
+    ctx.need(un is not None, "compile_lambda_list: 5-tuple unpack of params not found")
     gvars = [e.id for e in un.targets[0].elts]
     # --- which group feeds which arguments field
     call = pyq.contains(ll, lambda n: isinstance(n, ast.Call) and dotted(n.func) == "ast.arguments")
-    ctx.require(call is not None, "ast.arguments construction not found")
+    ctx.need(call is not None, "ast.arguments construction not found")
 
     def group_of(e, want_index):
         """the params group whose compile_arguments_set(...)[want_index] reaches expression e"""
@@ -118,7 +118,7 @@ def check(ctx, src):
     fl = rm.func("compile_function_lambda")
     ctx.require(fl is not None, "compile_function_lambda not found")
     ha = pyq.contains(fl, lambda n: isinstance(n, ast.Assign) and norm(n.targets[0]) == "has_annotations")
-    ctx.require(ha is not None, "has_annotations not found")
+    ctx.need(ha is not None, "has_annotations not found")
     t = norm(ha.value)
     ctx.check("returns is not None" in t and "(posonly or []) + args + kwonly + [rest, kwargs]" in t, "FN-SHAPE", f"{R}|compile_function_lambda|has_annotations",
               f"has_annotations (`{t[:120]}`) does not look at all five parameter groups and the return annotation: an annotated #* / #** parameter is emitted inside a Lambda, where Python drops the annotation",
